@@ -14,6 +14,9 @@ CHECKS = {
  'C03': ('model-based generation: abstract node trees rendered by an independent spec-derived renderer under generated layout choices; expected events are a function of the tree; plus the test-suite corpus with layout-preserving metamorphic variants',
          '1.5*10^5 (quick) / 3*10^6 (thorough) rendered streams covering every construct and layout choice the property lists (class histogram in the evidence, each >= 1 %), compared event by event (kind, text, style, anchor link, tag, explicit start) on two back-ends; 308 non-error suite cases x 4 variants against their tree: expectation.',
          'The renderer (harness/src/model.rs, written from the YAML 1.2.2 productions) is trusted to emit only well-formed streams; simple scalar mode here, tricky scalars are C04 / C05.', '5 C03'),
+ 'C04': ('model-based generation of presentation programs (atoms + separators) whose YAML text and denoted value are both read off the program; contexts x back-ends; plus an exhaustive escape / two-atom scope',
+         '2*10^5 (quick) / 4*10^6 (thorough) programs over plain / single / double style with every escape form, doubled quotes, interior blanks, folds of 1..3 breaks with blank and tab padding, escaped breaks, indicator and non-ASCII characters, in 10 syntactic contexts on StrInput, BufferedInput and TestInput<8>; the whole event list (value, style) is asserted.',
+         'The sanitiser keeps programs inside the style productions by construction; texts are those expressible in the chosen style.', '5 C04'),
  'C06': ('fault injection: one grammar-derived damage operator applied at a renderer-recorded site of a generated well-formed stream; oracle = the parser must return an error',
          '1.5*10^5 (quick) / 4.5*10^6 (thorough) damaged streams over 15 damage operators (each the listed kind of ill-formedness, constructed so the result is ill-formed whatever the surroundings), operator chosen among those applicable to the stream; plus the 94 error cases of the test suite; StrInput and BufferedInput.',
          'The undamaged stream must be accepted (differential precondition, C03 judges it); two accepted sub-classes are open known findings (F15, F25).', '5 C06'),
